@@ -10,14 +10,26 @@ KEYSETS = [(b"q",), (b"q", b"r"), (b"a", b"a_b"), (b"a", b"ab"), (b"a", b"a.b")]
 
 def reference(kind, nq, ops, vs):
     """FIFO queue / insertion-ordered set over the actual Python values (== decides membership).
-    Per op: (expected result or ANY, expected content of every queue as lists of values)."""
+    Per op: (expected result or ANY, expected content of every queue as lists of values, rejected?).
+    An operation whose argument is not a RegDom value (index < 0) is REJECTED: push(None) answers False, a foreign
+    object anywhere in a batch / as push or remove argument raises HierError, count answers 0 - and nothing changes."""
     ANY = reference.ANY
     qs = [[] for _ in range(nq)]
     out = []
     for op in ops:
         name = op[0]
         exp = ANY
-        if name == "reopen":
+        rejected = False
+        args = [op[2]] if name in ("push", "remove", "count") else list(op[2]) if name == "extend" else []
+        if any(i < 0 for i in args):
+            rejected = True
+            if name == "push" and op[2] == -1:
+                exp = False
+            elif name == "count":
+                exp = 0
+            else:
+                exp = ("raise", "HierError")
+        elif name == "reopen":
             exp = True
         else:
             q = qs[op[1]]
@@ -53,7 +65,7 @@ def reference(kind, nq, ops, vs):
                     exp = ANY      # docstring says both "False" and "raises KeyError"
             elif name == "count":
                 exp = sum(1 for x in q if x == vs[op[2]])
-        out.append((exp, [list(q) for q in qs]))
+        out.append((exp, [list(q) for q in qs], rejected))
     return out
 
 
@@ -72,7 +84,7 @@ class C23(core.Check):
     quick_n = 400
     thorough_n = 6000
     rule = ("case = (durq|dusq, 1-2 queue keys held in one Hold over one Subery, <= 30 ops push/pull/pull(emptive=False)/extend|update/clear/remove/count/reopen "
-            "over 5 values with duplicates (plus, rarely, the ==-equal values Bag(1)/Bag(1.0)/Bag(True)); reopen = close the lmdb env, open it again, new Hold, "
+            "over 5 values with duplicates (plus, rarely, the ==-equal values Bag(1)/Bag(1.0)/Bag(True)), and REJECTED calls: None / a str / an int as push, remove, count argument or at any position of an extend|update batch (the adapter records the HierError and continues); reopen = close the lmdb env, open it again, new Hold, "
             "fresh queue objects injected at the same keys). After every op list(queue) and the durable list at the key are observed for every queue. "
             "non-trivial = at least one reopen with a non-empty queue and >= 3 mutating ops; distinct by request line")
     trusted_base = ["lmdb modelled as a sorted association list (exercised by the correspondence on real lmdb, including close/reopen of the environment)",
@@ -105,6 +117,12 @@ class C23(core.Check):
             ("durq", (b"a", b"a.b"), [("push", 0, 0), ("push", 1, 1), ("push", 0, 2), ("reopen",), ("pull", 0), ("pull", 1), ("pull", 0), ("pull", 0)]),
             # partial-duplicate update, update of only known values, reopen of an emptied queue
             ("dusq", q, [("extend", 0, [0, 1]), ("extend", 0, [1, 2, 0, 3]), ("extend", 0, [3, 3]), ("reopen",), ("pull", 0), ("pull", 0), ("pull", 0), ("pull", 0), ("reopen",), ("pull", 0)]),
+            # REJECTED operations (argument None / a foreign object at every position of a batch): no effect, history goes on
+            ("durq", q, [("push", 0, 0), ("extend", 0, [1, -1]), ("extend", 0, [1, 2, -2, 0]), ("extend", 0, [-3, 1]), ("push", 0, -1), ("push", 0, -2),
+                         ("count", 0, -1), ("pull", 0), ("reopen",), ("pull", 0), ("extend", 0, [1, -1, 2]), ("reopen",), ("pull", 0)]),
+            ("dusq", q, [("push", 0, 0), ("extend", 0, [1, -1]), ("extend", 0, [2, 1, -2]), ("extend", 0, [-1, 2]), ("push", 0, -3), ("push", 0, -1),
+                         ("remove", 0, -1), ("remove", 0, -2), ("pull", 0), ("reopen",), ("pull", 0), ("extend", 0, [1, 2, -3]), ("reopen",), ("pull", 0)]),
+            ("durq", (b"a", b"a_b"), [("extend", 0, [0, 1]), ("extend", 1, [2, -1, 0]), ("extend", 0, [2, 2, 2, -2]), ("reopen",), ("pull", 1), ("pull", 0)]),
             # more than 16 values: ordinal carry, pulls from the front, reopen
             ("durq", q, [("extend", 0, [0, 1, 2, 3, 4])] * 4 + [("pull", 0), ("reopen",), ("pull", 0), ("push", 0, 0), ("reopen",), ("count", 0, 0)]),
         ]
@@ -114,13 +132,13 @@ class C23(core.Check):
             return [], None
         out = []
         for kind in ("durq", "dusq"):
-            alpha = [("push", 0, 0), ("push", 0, 1), ("pull", 0), ("extend", 0, [1, 0, 1]), ("clear", 0), ("reopen",)]
+            alpha = [("push", 0, 0), ("push", 0, 1), ("pull", 0), ("extend", 0, [1, 0, 1]), ("extend", 0, [1, -1, 0]), ("clear", 0), ("reopen",)]
             if kind == "dusq":
                 alpha += [("remove", 0, 0), ("remove", 0, 1)]
             for n in (1, 2, 3, 4):
                 for h in itertools.product(alpha, repeat=n):
                     out.append((kind, (b"q",), list(h)))
-        return out, "every history of <= 4 ops from {push v0, push v1, pull, extend [v1,v0,v1], clear, reopen (+ remove v0, remove v1 for dusq)} on one queue"
+        return out, "every history of <= 4 ops from {push v0, push v1, pull, extend [v1,v0,v1], extend [v1,None,v0] (rejected), clear, reopen (+ remove v0, remove v1 for dusq)} on one queue"
 
     def generate(self, rng, n, tier):
         for case in self._generate(rng, n, tier):
@@ -135,6 +153,7 @@ class C23(core.Check):
             dom = st.CLEAN[:rng.choice([2, 3, 5])] if rng.random() < 0.93 else (1, 5, 6, 0)
             nops = rng.choice([3, 6, 10, 15, 20, 30])
             preop = rng.choice([0.1, 0.3, 0.5])
+            pbad = rng.choice([0.0, 0.1, 0.25])
             ops = []
             for _ in range(nops):
                 if rng.random() < preop:
@@ -144,10 +163,16 @@ class C23(core.Check):
                 names = ["push"] * 5 + ["pull"] * 3 + ["pullx", "extend", "extend", "clear"]
                 names += ["remove", "remove"] if kind == "dusq" else ["count"]
                 name = rng.choice(names)
+                bad = rng.random() < pbad
                 if name in ("push", "remove", "count"):
-                    ops.append((name, qi, v))
+                    ops.append((name, qi, rng.choice([-1, -2, -3]) if bad else v))
                 elif name == "extend":
-                    ops.append((name, qi, [rng.choice(dom) for _ in range(rng.choice([0, 1, 2, 3, 4]))]))
+                    batch = [rng.choice(dom) for _ in range(rng.choice([0, 1, 2, 3, 4]))]
+                    if bad:          # an invalid element at a random position of the batch (first, middle, last)
+                        batch.insert(rng.randrange(len(batch) + 1), rng.choice([-1, -2, -3]))
+                        if rng.random() < 0.3:
+                            batch.insert(rng.randrange(len(batch) + 1), rng.choice([-1, -2]))
+                    ops.append((name, qi, batch))
                 else:
                     ops.append((name, qi))
             yield (kind, keys, ops[:30])
@@ -157,6 +182,8 @@ class C23(core.Check):
         tab = st.c23_table()
 
         def val(i):
+            if i < 0:
+                return "none" if i == -1 else "junk"
             return (tab[i][0], tab[i][1])
         rops = []
         for o in ops:
@@ -176,19 +203,23 @@ class C23(core.Check):
         vs = st._vals()
         ANY = reference.ANY
         bad = []
-        for (exp, content), (res, seen), op in zip(reference(kind, len(keys), ops, vs), obs, ops):
+        prev = tuple(((), ()) for _ in keys)
+        for (exp, content, rejected), (res, seen), op in zip(reference(kind, len(keys), ops, vs), obs, ops):
             if isinstance(res, tuple) and res[:1] == ("raise",) and exp != res:
                 bad.append(f"{op[0]}-raised-{res[1]}")
             elif exp is not ANY:
                 e = st.c23_ser(exp) if not (exp is None or isinstance(exp, (bool, int, tuple))) else exp
                 if e != res:
                     bad.append(f"{op[0]}-result")
+            if rejected and seen != prev:
+                bad.append("rejected-op-changed-memory-or-store")
             for want, (mem, dur) in zip(content, seen):
                 w = tuple(st.c23_ser(v) for v in want)
                 if mem != w:
                     bad.append("reopen-does-not-restore" if op[0] == "reopen" else "memory-content")
                 if dur != mem:
                     bad.append("durable-copy-differs-from-memory")
+            prev = seen
         return sorted(set(bad))
 
     def known(self, case, obs, clauses):
@@ -200,9 +231,9 @@ class C23(core.Check):
         per = {}
         for o in ops:
             if o[0] in ("push", "remove"):
-                per.setdefault(o[1], set()).add(o[2])
+                per.setdefault(o[1], set()).add(max(o[2], 0))
             elif o[0] == "extend":
-                per.setdefault(o[1], set()).update(o[2])
+                per.setdefault(o[1], set()).update(i for i in o[2] if i >= 0)
         for used in per.values():
             if any(a != b and tab[a][0] == tab[b][0] and tab[a][1] != tab[b][1] for a in used for b in used):
                 return "C23-K1"
@@ -244,11 +275,12 @@ class C23(core.Check):
 
 
 C23.level_text = (
-    "Lean theorems, all unbounded: durq_refines_fifo / dusq_refines_oset_partial (every history of push/pull/extend|update/clear/remove/count/reopen: results and in-memory "
-    "content are those of a FIFO queue / insertion-ordered set with FIFO pull), durable_mirror (after every op the durable content at the key is the in-memory content, same order), "
-    "reopen_restores (reopen at any point between operations restores exactly that content), no HierError/UnboundLocalError escapes. Dusq theorems are _partial under the guard "
-    "'== coincides with equality of serialisations on the values used' (F38; witness theorem dusq_mirror_fails_without_guard, known finding C23-K1); F37 (Dusq.remove always raised) is fixed. "
-    "Tied to the code by a differential run on real lmdb with reopen at every gap.")
+    "Lean theorems, all unbounded: hold_refines (ONE refinement theorem for a Hold with several queues of one kind in one store: every history of push/pull/extend|update/clear/remove/count addressed to any "
+    "key WITH reopen - close, open, inject fresh objects at every key, sync - at arbitrary positions: after every step result, in-memory content and durable content of EVERY queue are those of independent "
+    "FIFO queues / insertion-ordered sets, i.e. durable mirror, reopen restores and key independence in one statement), durq_refines_fifo / dusq_refines_oset_partial (single queue), durable_mirror, "
+    "reopen_restores, no_mismatch_error, spec_other_queue_unchanged, dusq_content_nodup. Dusq theorems are _partial under '== coincides with equality of serialisations' (F38; witness "
+    "dusq_mirror_fails_without_guard, known finding C23-K1); all under the exact key guard of C24 at the queue keys. F37 (Dusq.remove always raised) is fixed. "
+    "Tied to the code by a differential run on real lmdb with reopen at every gap and 1-2 queues per Hold.")
 C23.level_note = ("Trusted: Lean kernel + propext/Classical.choice/Quot.sound; the sorted-list model of lmdb and of env close/open; the abstraction of values to (==-class, serialisation). "
                   "Crash inside a transaction is not modelled (the property quantifies over reopen between operations).")
 
